@@ -91,6 +91,18 @@ impl Check for C14 {
             linker.push_str(&format!("[x](<{}>)\n\n", rel));
         }
         std::fs::write(base.join("linker.md"), &linker).unwrap();
+        // a directory the loader cannot name (not valid UTF-8) and one it cannot list: neither holds notes, neither may
+        // keep the rest of the library from being served
+        {
+            use std::os::unix::ffi::OsStrExt;
+            use std::os::unix::fs::PermissionsExt;
+            let odd = base.join(std::ffi::OsStr::from_bytes(b"caf\xe9"));
+            let _ = std::fs::create_dir_all(&odd);
+            let _ = std::fs::write(odd.join("readme.txt"), b"not a note");
+            let closed = base.join("no-entry");
+            let _ = std::fs::create_dir_all(&closed);
+            let _ = std::fs::set_permissions(&closed, std::fs::Permissions::from_mode(0o000));
+        }
         let n_notes = files.len() + 1;
         let base_arg = match bclass {
             "trailing-slash" => format!("{}/", base.to_string_lossy()),
@@ -188,6 +200,10 @@ impl Check for C14 {
             }
         }
         let _ = s.shutdown();
+        {
+            use std::os::unix::fs::PermissionsExt;
+            let _ = std::fs::set_permissions(base.join("no-entry"), std::fs::Permissions::from_mode(0o755));
+        }
         let _ = std::fs::remove_dir_all(&root);
         if case < 3 {
             rep.sample = Some(replay);
